@@ -20,6 +20,9 @@ INT_TYPES = {"u8": (8, False), "u16": (16, False), "u32": (32, False), "u64": (6
              "i32": (32, True), "i64": (64, True), "i128": (128, True), "isize": (64, True)}
 
 
+COUNTERS = {"blocks": 0, "edges": 0}   # basic blocks executed / successor edges followed, all executors
+
+
 class MirError(Exception):
     pass
 
@@ -297,6 +300,8 @@ class Executor:
             except NeedsConcrete:
                 self.dropped_paths.append(list(pc))
                 continue
+            COUNTERS["blocks"] += 1
+            COUNTERS["edges"] += len(nxts)
             for nxt in nxts:
                 if nxt[0] == "ret":
                     results.append((nxt[2], nxt[1], env))
